@@ -227,7 +227,8 @@ storage_properties_set_dimension(struct StorageProperties* out,
 
     struct StorageDimension* dim = &out->acquisition_dimensions.data[index];
 
-    memset(dim, 0, sizeof(*dim)); // NOLINT
+    // release a previously set name before clearing the slot
+    storage_dimension_destroy(dim);
 
     struct String s = { .is_ref = 1,
                         .nbytes = bytes_of_name,
